@@ -1,10 +1,12 @@
 package sod
 
 import (
+	"bytes"
 	"encoding/json"
 	"errors"
 	"fmt"
 	"regexp"
+	"strconv"
 	"time"
 )
 
@@ -24,15 +26,18 @@ func (f *indexedField) MarshalJSON() ([]byte, error) {
 	return json.Marshal([]interface{}{f.Value, f.ObjectId})
 }
 
-func (f *indexedField) UnmarshalJSON(data []byte) error {
+func (f *indexedField) UnmarshalJSON(data []byte) (err error) {
 	var tuple []interface{}
-	if err := json.Unmarshal(data, &tuple); err != nil {
+	// numbers are decoded as json.Number not to lose precision
+	// on 64 bits integers (decoding to float64 does)
+	dec := json.NewDecoder(bytes.NewReader(data))
+	dec.UseNumber()
+	if err = dec.Decode(&tuple); err != nil {
 		return err
 	}
 	f.Value = tuple[0]
-	// Json unmarshals integer to interface{} as float64
-	f.ObjectId = uint64(tuple[1].(float64))
-	return nil
+	f.ObjectId, err = strconv.ParseUint(tuple[1].(json.Number).String(), 10, 64)
+	return err
 }
 
 func (f *indexedField) String() string {
@@ -78,6 +83,25 @@ func newIndexedField(value interface{}, objid uint64) (*indexedField, error) {
 func (f *indexedField) valueTypeFromString(t string) {
 	// we cast everything to float64 because json unmarshal interface{}
 	// to float64 and that is a current limitation of the indexing
+	if n, ok := f.Value.(json.Number); ok {
+		// value decoded by UnmarshalJSON, converted without precision loss
+		var err error
+		switch t {
+		case "float64":
+			f.Value, err = strconv.ParseFloat(n.String(), 64)
+		case "int64":
+			f.Value, err = strconv.ParseInt(n.String(), 10, 64)
+		case "uint64":
+			f.Value, err = strconv.ParseUint(n.String(), 10, 64)
+		default:
+			err = fmt.Errorf("%w %s", ErrUnknownKeyType, t)
+		}
+		if err != nil {
+			panic(err)
+		}
+		return
+	}
+
 	switch t {
 	case "float64":
 		f.Value = f.Value.(float64)
